@@ -336,3 +336,71 @@ func TestPayloadWalk(t *testing.T) {
 		}
 	}
 }
+
+// domainOfLength builds a tunnel domain of exactly n characters (labels of at most 63).
+func domainOfLength(n int) string {
+	if n < 3 {
+		n = 3
+	}
+	tld := ".io"
+	rest := n - len(tld)
+	if rest < 1 {
+		return "a.b"[:n]
+	}
+	var labels []string
+	for rest > 0 {
+		l := rest
+		if l > 63 {
+			l = 63
+			if rest-l == 1 { // do not leave room for a dot only
+				l = 62
+			}
+		}
+		labels = append(labels, strings.Repeat("d", l))
+		rest -= l
+		if rest > 0 {
+			rest-- // the dot
+		}
+	}
+	return strings.Join(labels, ".") + tld
+}
+
+// TestDomainLengthSweep: the room a record has for payload depends on the length of the tunnel domain, with its own
+// boundary cases (label splitting every 57 characters, the 255-octet name limit). For every domain length 3..150
+// (thorough ..200), every record type and every codec selectable over that domain, packet responses from empty to several
+// records long must arrive equal.
+func TestDomainLengthSweep(t *testing.T) {
+	maxDomain := vlib.Pick(150, 200)
+	sizes := []int{0, 1, 30, 100, 139, 140, 141, 170, 200, 256, 300, 400, 600, 1000}
+	reported := map[string]bool{}
+	for L := 3; L <= maxDomain; L++ {
+		domain := domainOfLength(L)
+		if len(domain) != L {
+			continue
+		}
+		for _, r := range rtypes {
+			for _, e := range downCodecs {
+				if !selectable(domain, r.t, e) {
+					continue
+				}
+				for _, n := range sizes {
+					resp := &commands.PacketResponse{LastAckedSeqNo: uint16(n), Packet: &util.Packet{SeqNo: uint16(n * 3), Data: vlib.PRF(uint64(n+L), 0, n)}}
+					o := pushResponse(resp, domain, r.t, e)
+					sig, msg := classify(r.name, e, domain, resp, "packet", n, o, true)
+					vlib.Rec.Case(fmt.Sprintf("dlen|%d|%s|%s|%d", L, r.name, e.Name(), n), true, []string{"domain-length-sweep", "rtype:" + r.name, "codec:" + e.Name()}, func() interface{} {
+						return map[string]interface{}{"type": "packet", "rtype": r.name, "codec": e.Name(), "domain_length": L, "payload_len": n, "outcome_stage": o.Stage}
+					})
+					if sig != "" && !reported[sig+e.Name()] {
+						reported[sig+e.Name()] = true
+						if vlib.IsKnown("C10", sig) {
+							vlib.Rec.Known(sig, map[string]interface{}{"problem": msg})
+							continue
+						}
+						vlib.Rec.Violation(map[string]interface{}{"property": "C10", "signature": sig, "problem": msg})
+						t.Errorf("C10 [%s] %s", sig, msg)
+					}
+				}
+			}
+		}
+	}
+}
